@@ -26,3 +26,11 @@ Theorem C17_read_after_read_equals_read_alone b o1 l1 o2 l2 b1 d1 : fb_inv b -> 
   end.
 Proof. exact (read_after_read b o1 l1 o2 l2 b1 d1). Qed.
 Print Assumptions C17_read_after_read_equals_read_alone.
+
+(** any number of reads in any order — in particular any interleaving of the ReadAt calls of K
+    concurrent fetches, which the buffer executes one at a time — return, each, exactly the bytes
+    that read returns when it is issued alone on the same handle *)
+Theorem C17_any_interleaving_of_reads rs b : fb_inv b -> Forall (fun r => 0 < snd r) rs ->
+  run_reads b rs = map (read_alone b) rs.
+Proof. exact (run_reads_independent rs b). Qed.
+Print Assumptions C17_any_interleaving_of_reads.
